@@ -209,10 +209,13 @@ async fn recv_half(c: RecvCase) -> Vec<(String, String)> {
 fn gen_recv(rng: &mut Rng) -> RecvCase {
     let streams = rng.usize(1, 8);
     let mut plans = Vec::new();
+    // now and then a burst of very many tiny frames (they reach the victim in one or a few transport reads, with the
+    // end of the stream far behind the first frame)
+    let burst = rng.chance(0.15);
     for _ in 0..streams {
-        let n = rng.usize(0, 6);
-        let chunks: Vec<usize> = (0..n).map(|_| *rng.pick(&[0usize, 1, 10, 700, 8192, 20000, 65535])).collect();
-        plans.push((chunks, rng.chance(0.7)));
+        let n = if burst { *rng.pick(&[30usize, 63, 64, 65, 66, 130, 200, 700]) } else { rng.usize(0, 6) };
+        let chunks: Vec<usize> = (0..n).map(|_| if burst { rng.usize(1, 3) } else { *rng.pick(&[0usize, 1, 10, 700, 8192, 20000, 65535]) }).collect();
+        plans.push((chunks, rng.chance(if burst { 0.9 } else { 0.7 })));
     }
     RecvCase { victim_server: rng.chance(0.5), streams, plans, pipe: rng.below(3) as u8, reader_buf: *rng.pick(&[1usize, 7, 1000, 8192, 70000]), seed: rng.next() }
 }
